@@ -402,13 +402,18 @@ def handle_rejections(ctx, results, rerun, self_desc=None):
 
 def self_test(ctx, module, cfg, trace_file, mutate, env=None, ncases=40, name="corrupt one recorded field"):
     """Binding self-test: take the first cases of a recorded trace, corrupt it with mutate(list of dict)->list
-    of dict (must really change something) and require that validation rejects it."""
-    lines = read_lines(trace_file)
-    # first ncases cases
-    idx = [i for i, l in enumerate(lines) if '"ev":"Case"' in l]
-    end = idx[ncases] if len(idx) > ncases else len(lines)
-    recs = [json.loads(l) for l in lines[:end]]
-    mut = mutate(copy.deepcopy(recs))
+    of dict (must really change something) and require that validation rejects it.  trace_file may be a list of
+    files: the first one the mutation applies to is used."""
+    files = trace_file if isinstance(trace_file, (list, tuple)) else [trace_file]
+    mut = recs = None
+    for tf in files:
+        lines = read_lines(tf)
+        idx = [i for i, l in enumerate(lines) if '"ev":"Case"' in l]
+        end = idx[ncases] if len(idx) > ncases else len(lines)
+        recs = [json.loads(l) for l in lines[:end]]
+        mut = mutate(copy.deepcopy(recs))
+        if mut != recs:
+            break
     if mut == recs:
         raise Infra("self-test mutation '%s' changed nothing" % name)
     p = os.path.join(ctx.scratch, "selftest_%d.ndjson" % len(ctx.cov["self_test"]))
